@@ -118,6 +118,7 @@ type Machine struct {
 	locals       map[string]Value // per-path scratch for harness-side models (intrinsics)
 	nameSeq      int
 	lastPos      token.Pos
+	canonCache   map[int]*smt.Term
 }
 
 func (m *Machine) abort(kind, msg string) {
@@ -369,6 +370,9 @@ func (m *Machine) vectorFromModel(model map[string]uint64) ([]uint64, []string, 
 // evalUnder evaluates a term under a model of the nondet variables (constant folding by
 // rebuilding the term with substituted leaves).
 func (m *Machine) evalUnder(t *smt.Term, model map[string]uint64) (uint64, bool) {
+	if v, ok := smt.Eval(t, model); ok {
+		return v, true
+	}
 	memo := map[int]*smt.Term{}
 	var rec func(x *smt.Term) *smt.Term
 	rec = func(x *smt.Term) *smt.Term {
